@@ -145,7 +145,7 @@ def check_next(ctx, F, hty, size_off, label, rule_prefix="T"):
     nones = [e for e in ex if e.kind == "None"]
     somes = [e for e in ex if e.kind == "Some"]
     # T4 first test
-    g = len(nones) == 1 and len(somes) == 1 and [N(f) for f in nones[0].own] == [("cmp", "Eq", off, ("len", buf))] and len(nones[0].facts) == 1
+    g = len(nones) == 1 and len(somes) == 1 and ("cmp", "Eq", off, ("len", buf)) in [N(f) for f in nones[0].own] and len(nones[0].facts) == len(nones[0].own)
     ctx.check(g, rule_prefix + "4", label + ":end", "next() returns None exactly when offset == buffer.len(), as its first test", A.site(), how=str(nones)[:200], why=str(ex)[:400])
     # raw header read
     adds = [(bb, t) for bb, t in b.calls() if M.callee_path(t).endswith("<impl *const T>::add")]
